@@ -9,21 +9,22 @@ package gosym
 import (
 	"fmt"
 	"go/types"
+	"strconv"
 
 	"golang.org/x/tools/go/ssa"
 )
 
 type thread struct {
-	id      int
-	name    string
-	wake    chan bool
-	exited  bool // goroutine finished
-	done    bool // target function returned
-	blocked func() bool
-	blockOn string
+	id       int
+	name     string
+	wake     chan bool
+	exited   bool // goroutine finished
+	done     bool // target function returned
+	blocked  func() bool
+	blockOn  string
 	onTicker bool // blocked on a ticker/timer channel whose delivery budget is used up
-	top     *frame
-	started bool
+	top      *frame
+	started  bool
 }
 
 type lockState struct {
@@ -121,6 +122,19 @@ func (m *machine) schedPoint(what string) {
 	// voluntary yields (zz.Yield, time.Sleep, runtime.Gosched) are not preemptions:
 	// switching there is always explored and does not count against the bound
 	voluntary := what == "yield" || what == "sleep" || what == "gosched"
+	if what == "timer" {
+		// waiting for a timer lets time pass: other threads may run.  The first
+		// TimerYields such waits of a path are explored as free switches, later
+		// ones are ordinary preemption points (counted against the bound).
+		ty := 2
+		if v, ok := m.cfg.Params["timer_yields"]; ok {
+			ty = v
+		}
+		m.bounds["free switches at timer waits"] = strconv.Itoa(ty)
+		if m.timerYields < ty {
+			voluntary = true
+		}
+	}
 	if selfEnabled && !voluntary && m.cfg.Preempt >= 0 && m.preempts >= m.cfg.Preempt {
 		return
 	}
@@ -136,6 +150,9 @@ func (m *machine) schedPoint(what string) {
 			}
 		}
 		cands = ord
+	}
+	if what == "timer" && voluntary {
+		m.timerYields++
 	}
 	ch := m.chooseN("sched", len(cands), func(int) string { return "true" })
 	next := cands[ch]
@@ -363,7 +380,13 @@ func (m *machine) chanSend(cv value, v value) {
 
 func (m *machine) chanRecv(cv value, elem types.Type) (value, bool) {
 	c := cv.(*chanV)
-	m.schedPoint("recv")
+	if c != nil && c.ticker {
+		// waiting for a timer is waiting for time to pass: any other thread may run
+		// meanwhile, so this is a voluntary yield, not a preemption
+		m.schedPoint("timer")
+	} else {
+		m.schedPoint("recv")
+	}
 	if c == nil {
 		m.block("receive from nil channel", func() bool { return false })
 	}
@@ -401,7 +424,6 @@ func (m *machine) chanClose(cv value) {
 }
 
 func (m *machine) doSelect(fr *frame, instr *ssa.Select) value {
-	m.schedPoint("select")
 	type cs struct {
 		c    *chanV
 		send bool
@@ -431,6 +453,22 @@ func (m *machine) doSelect(fr *frame, instr *ssa.Select) value {
 			}
 		}
 		return r
+	}
+	// a select that can only proceed through a timer case waits for time to pass:
+	// a voluntary yield (always explored, not counted as a preemption)
+	onlyTimers := instr.Blocking
+	nt := 0
+	for _, i := range ready() {
+		if cases[i].c.ticker {
+			nt++
+		} else {
+			onlyTimers = false
+		}
+	}
+	if onlyTimers && nt > 0 {
+		m.schedPoint("timer")
+	} else {
+		m.schedPoint("select")
 	}
 	rd := ready()
 	if len(rd) == 0 {
